@@ -31,6 +31,10 @@ def judge(vec, asg):
 
 
 def visit(acc, blk, vec, asg, idx):
+    if blk.meta.get("xmod"):
+        extra = [m for m in T.V4_MODIFIED if m not in asg]
+        vec = vec + "".join("/%s:X" % m for m in extra)
+        asg = dict(asg, **dict((m, "X") for m in extra))
     acc["n"] += 1
     acc["calls"] += 2
     why, got, exp = judge(vec, asg)
@@ -50,10 +54,11 @@ def run(ctx, res):
     n_off = official.validate("4", model)
     ctx.log("reference model reproduces %d official v4 vectors" % n_off)
     if ctx.thorough:
-        blocks = spaces.v4_blocks("thorough", "short") + spaces.v4_blocks("quick", "override")
+        blocks = spaces.v4_blocks("thorough", "short") + spaces.v4_blocks("quick", "override") + \
+            spaces.v4_xmod_blocks(("mid", "mid"))
     else:
         blocks = spaces.v4_blocks("quick", "short", ("mid", "mid")) + \
-            spaces.v4_blocks("quick", "override", ("min", "min"))
+            spaces.v4_blocks("quick", "override", ("min", "min")) + spaces.v4_xmod_blocks(("min", "min"))
     tot = sweep.merge(product.run(ctx, blocks, visit, sweep.new_acc))
     sweep.fill(res, ctx, tot, blocks,
                "every point of the listed product blocks over the v4 effective-value domains is "
